@@ -242,31 +242,26 @@ def hasAgg : Expr → Bool
   | .f2 _ a b => hasAgg a || hasAgg b
   | _ => false
 
-/-- The statement groups by a computed key: it aggregates, and some select item without aggregate is a
+/-- The main phase groups by a computed key: it aggregates, and one of its grouping columns (a select item
+    without aggregate, or a sort key without aggregate that `normalize` added to the projection) is a
     comparison / boolean expression or references no column at all. -/
-def groupsByComputedKey (q : Query) : Bool :=
-  q.select.any (fun ci => hasAgg ci.expr)
-  && q.select.any (fun ci => !hasAgg ci.expr && (isBoolExpr ci.expr || !ci.expr.hasColumn))
+def groupsByComputedKey (main : NormalFormQuery) : Bool :=
+  !main.aggregate.isEmpty
+  && main.projection.any (fun ci => isBoolExpr ci.expr || !ci.expr.hasColumn)
 
-def classify (p : Parsed) (columns : List String) (verdict sig : String) : String :=
-  let _ := columns
+def classify (p : Parsed) (cat : Catalog) (verdict sig : String) : String :=
   if verdict = "OK" then "" else
-  match parseQuery p with
-  | .ok q =>
-      let lost := verdict = "BAD lost-answer" || verdict = "BAD hang"
-      if lost && groupKeySig sig && groupsByComputedKey q then "groupby-computed-key"
-      else if lost && containsSub sig "select.rs: index out of bounds"
-          && (q.orderBy.filter fun ob => keepsOrderKey ob.1).any (fun ob => isBoolExpr ob.1) then
-        "orderby-isnull-key-select-oob"
-      else if verdict = "BAD column-count" && quotedStar p then
-        "C12-quoted-star-is-wildcard"
+  let lost := verdict = "BAD lost-answer" || verdict = "BAD hang"
+  match runFront p cat with
+  | .ok plan =>
+      if lost && groupKeySig sig && groupsByComputedKey plan.norm.main then "groupby-computed-key"
+      else if verdict = "BAD column-count" && quotedStar p then "C12-quoted-star-is-wildcard"
       else ""
   | _ => ""
 
 /-- The mutation stream has no syntax tree: there the exact panic message alone decides. -/
 def classifyMut (verdict sig : String) : String :=
   if !(verdict = "BAD lost-answer" || verdict = "BAD hang") then ""
-  else if containsSub sig "select.rs: index out of bounds: the len is 3 but the index is 3" then "orderby-isnull-key-select-oob"
   else if groupKeySig sig then "groupby-computed-key"
   else ""
 
@@ -296,7 +291,7 @@ def step (line : String) : String :=
           let cat : Catalog := { tableExists := ex = "1", metaCols := m, partitions := np }
           let _ := rf
           let verdict := judge (some p) cat columns obs
-          let known := classify p columns verdict sig
+          let known := classify p cat verdict sig
           modelRun p cat nr obs ++ "\t" ++ verdict ++ (if known = "" then "" else "\t" ++ known)
       | _, _, _, _, _, _ => "bad-op\tbad-op"
   | "mut" :: rest =>
